@@ -697,6 +697,8 @@ class ModuleEmitter:
                 if field.enum_variants is not None:
                     for var_val, var_name in field.enum_variants.items():
                         attrs["enum_value_" + to_binary(var_val & ((1 << len(field.value)) - 1), len(field.value))] = var_name
+                if f"\\{''.join(name_parts)}" in self.builder.contents:
+                    continue # The name is taken by a signal; field wires are only aliases.
                 wire = self.builder.wire(width=len(field.value), signed=field.signed, attrs=attrs,
                                          name="".join(name_parts), src_loc=signal.src_loc)
                 self.builder.connect(wire.name, self.sigspec(field.value))
